@@ -185,6 +185,39 @@ pub fn base(prog: &RProgram, docs: bool) -> Base {
 
 /// Err(kind, detail)
 pub fn eval(b: &Base, d: usize, dmg: &Damage, with_lsp: bool) -> Result<(), (String, String, String)> {
+    eval_state(b, d, dmg, with_lsp, None)
+}
+
+fn damaged_words(b: &Base, dmg: &Damage) -> Vec<String> {
+    let mut words = b.words.clone();
+    match dmg {
+        Damage::Delete(k) => {
+            words.remove(*k);
+        }
+        Damage::Insert(k, w) => words.insert(*k, w.clone()),
+        Damage::Replace(k, w) => words[*k] = w.clone(),
+    }
+    words
+}
+
+/// The damaged state is reached by editing: valid program -> (one change) first damage ->
+/// (one change) the text that differs from the valid program by `second` alone. The analysis
+/// is carried forward by `update`. None: the first update already panicked (reported by C01/C02).
+pub fn state_after_edits(b: &Base, first: &Damage, second: &Damage) -> Result<AnalyzedSource, String> {
+    let t0 = b.text.clone();
+    let t1 = join_words(&damaged_words(b, first));
+    let t2 = join_words(&damaged_words(b, second));
+    guarded(move || {
+        let e1 = crate::checks::c15::single_edit_bytes(&t0, &t1);
+        let e2 = crate::checks::c15::single_edit_bytes(&t1, &t2);
+        let s0 = AnalyzedSource::new(t0);
+        let s1 = s0.update(vec![spl_frontend::TextChange { range: e1.0..e1.1, text: e1.2 }]);
+        s1.update(vec![spl_frontend::TextChange { range: e2.0..e2.1, text: e2.2 }])
+    })
+}
+
+/// `pre`: the analysis of the damaged text as reached by a history (default: fresh analysis)
+pub fn eval_state(b: &Base, d: usize, dmg: &Damage, with_lsp: bool, pre: Option<AnalyzedSource>) -> Result<(), (String, String, String)> {
     let mut words = b.words.clone();
     let (tok_delta, at): (isize, usize) = match dmg {
         Damage::Delete(k) => {
@@ -205,12 +238,18 @@ pub fn eval(b: &Base, d: usize, dmg: &Damage, with_lsp: bool) -> Result<(), (Str
     let base_text = join_words(&b.words);
     let _ = at;
     let t2 = text.clone();
-    let res = guarded(move || {
-        let toks = lexer::lex(&t2);
-        let tree = parser::parse(&toks);
-        let an = AnalyzedSource::new(t2.clone());
-        let errs = an.errors();
-        (tree, an, errs)
+    let res = guarded(move || match pre {
+        Some(an) => {
+            let errs = an.errors();
+            (an.ast.clone(), an, errs)
+        }
+        None => {
+            let toks = lexer::lex(&t2);
+            let tree = parser::parse(&toks);
+            let an = AnalyzedSource::new(t2.clone());
+            let errs = an.errors();
+            (tree, an, errs)
+        }
     });
     let (tree, an, errs) = match res {
         Ok(x) => x,
@@ -362,6 +401,31 @@ pub fn eval(b: &Base, d: usize, dmg: &Damage, with_lsp: bool) -> Result<(), (Str
     Ok(())
 }
 
+// exact known-finding membership for the edit histories (side-car of input hashes, written
+// only by `splmc baseline C05`, never by a check run)
+pub fn sidecar_path() -> std::path::PathBuf {
+    verif_dir().join("known_findings").join("C05.hashes")
+}
+pub fn load_sidecar() -> std::collections::HashSet<u64> {
+    let mut s = std::collections::HashSet::new();
+    if let Ok(b) = std::fs::read(sidecar_path()) {
+        for c in b.chunks_exact(8) {
+            s.insert(u64::from_le_bytes(c.try_into().unwrap()));
+        }
+    }
+    s
+}
+fn history_id(t0: &str, t1: &str, t2: &str) -> u64 {
+    let mut h: u64 = 0xcbf29ce484222325;
+    for part in [t0, t1, t2] {
+        for x in part.as_bytes().iter().chain([0xffu8].iter()) {
+            h ^= *x as u64;
+            h = h.wrapping_mul(0x100000001b3);
+        }
+    }
+    h
+}
+
 fn tok_kind(w: &str) -> String {
     if w.chars().all(|c| c.is_ascii_alphabetic()) && crate::reflex::KEYWORDS.contains(&w) {
         w.to_string()
@@ -377,7 +441,30 @@ fn tok_kind(w: &str) -> String {
 }
 
 pub fn run(tier: Tier) -> Report {
+    sweep(tier).0
+}
+
+/// Development-time only (`splmc baseline C05`): writes the side-car of currently failing
+/// edit histories (both tiers).
+pub fn write_baseline() {
+    let mut ids: Vec<u64> = vec![];
+    for t in [Tier::Quick, Tier::Thorough] {
+        ids.extend(sweep(t).1);
+    }
+    ids.sort();
+    ids.dedup();
+    let mut b = Vec::with_capacity(ids.len() * 8);
+    for i in &ids {
+        b.extend_from_slice(&i.to_le_bytes());
+    }
+    std::fs::create_dir_all(sidecar_path().parent().unwrap()).unwrap();
+    std::fs::write(sidecar_path(), b).unwrap();
+    println!("baseline: {} failing histories written to {}", ids.len(), sidecar_path().display());
+}
+
+pub fn sweep(tier: Tier) -> (Report, Vec<u64>) {
     let mut rep = Report::new("C05", tier);
+    let known = load_sidecar();
     let progs = programs(tier);
     let evals = AtomicU64::new(0);
     // no declaration keywords (excluded by the property) and no comment line (a comment in
@@ -427,8 +514,108 @@ pub fn run(tier: Tier) -> Report {
             out
         })
         .collect();
+    // the same oracle on states that are reached by editing: valid -> first damage -> second
+    // damage (both single-token damages of the same declaration, each step one change event),
+    // the analysis carried forward by update()
+    let hist_alphabet: Vec<&str> = [">", "x", "{", ";", ")", "1", "if", ":="].to_vec();
+    let hist_evals = AtomicU64::new(0);
+    let hist_results: Vec<(u64, bool, Option<Failure>)> = progs
+        .par_iter()
+        .enumerate()
+        .filter(|(pi, _)| pi % tier.pick(9, 2) == 0)
+        .flat_map_iter(|(pi, p)| {
+            let mut out: Vec<(u64, bool, Option<Failure>)> = vec![];
+            let mut seen = std::collections::HashSet::new();
+            let mut kept_known = 0usize;
+            let b = base(p, pi % 2 == 1);
+            for d in 0..p.decls.len() {
+                let (a, e) = b.pr.decl_spans[d];
+                let mut dmgs: Vec<Damage> = vec![];
+                for k in a..e {
+                    let w = &b.words[k];
+                    if w == "proc" || w == "type" || w.starts_with("//") {
+                        continue;
+                    }
+                    dmgs.push(Damage::Delete(k));
+                    for t in hist_alphabet.iter().skip(k % 2).step_by(2) {
+                        dmgs.push(Damage::Insert(k, t.to_string()));
+                        dmgs.push(Damage::Replace(k, t.to_string()));
+                    }
+                }
+                for (i1, first) in dmgs.iter().enumerate().step_by(tier.pick(3, 1)) {
+                    for (i2, second) in dmgs.iter().enumerate().skip(i1 % 2).step_by(tier.pick(2, 1)) {
+                        if i1 == i2 {
+                            continue;
+                        }
+                        hist_evals.fetch_add(1, Ordering::Relaxed);
+                        let r = match state_after_edits(&b, first, second) {
+                            Ok(st) => {
+                                // where the fresh analysis of the same text violates the oracle too,
+                                // the single-step sweep above has reported it already
+                                match eval_state(&b, d, second, false, Some(st)) {
+                                    Err(e) if eval(&b, d, second, false).is_ok() => Err(e),
+                                    _ => Ok(()),
+                                }
+                            }
+                            Err(p) => Err(("panic-in-update".to_string(), p, join_words(&damaged_words(&b, second)))),
+                        };
+                        if let Err((kind, detail, text)) = r {
+                            let t1 = join_words(&damaged_words(&b, first));
+                            let id = history_id(&b.text, &t1, &text);
+                            let is_known = known.contains(&id);
+                            let dk = |dmg: &Damage| match dmg {
+                                Damage::Delete(k) => format!("delete-{}", tok_kind(&b.words[*k])),
+                                Damage::Insert(k, w) => format!("insert-{}-before-{}", tok_kind(w), tok_kind(&b.words[*k])),
+                                Damage::Replace(k, w) => format!("replace-{}-by-{}", tok_kind(&b.words[*k]), tok_kind(w)),
+                            };
+                            let key = if is_known { "known-containment-after-edits".to_string() } else { format!("containment-after-edits:{}:{}:then:{}", kind, dk(first), dk(second)) };
+                            let keep = if is_known {
+                                kept_known += 1;
+                                kept_known <= 2
+                            } else {
+                                seen.insert(key.clone()) || seen.len() < 50
+                            };
+                            let f = if keep {
+                                Some(Failure {
+                                    key,
+                                    case: json!({"text": text, "base": b.text, "first_damage_text": t1, "damaged_declaration": d, "damage": format!("{:?} then {:?}", first, second)}),
+                                    detail: truncate(&detail, 1200),
+                                })
+                            } else {
+                                None
+                            };
+                            out.push((id, is_known, f));
+                        }
+                    }
+                }
+            }
+            out
+        })
+        .collect();
+    let failing_ids: Vec<u64> = hist_results.iter().map(|r| r.0).collect();
+    let hist_known = hist_results.iter().filter(|r| r.1).count();
+    let hist_failing = hist_results.len();
+    // every unlisted failure counts; of the listed ones a few are kept as samples
+    let mut hist_fails: Vec<Failure> = vec![];
+    let mut known_kept = 0;
+    for (_, k, f) in hist_results {
+        if let Some(f) = f {
+            if !k {
+                hist_fails.push(f);
+            } else if known_kept < MAX_KEPT_FAILURES {
+                known_kept += 1;
+                hist_fails.push(f);
+            }
+        }
+    }
+    // the known ones that were not kept still count as failing cases of the finding
+    rep.extra.insert("two_step_edit_histories_failing".into(), json!(hist_failing));
+    rep.extra.insert("two_step_edit_histories_failing_known".into(), json!(hist_known));
+    let mut fails = fails;
+    fails.extend(hist_fails);
+    rep.extra.insert("two_step_edit_histories".into(), json!(hist_evals.load(Ordering::Relaxed)));
     rep.states = progs.len() as u64 * 2;
-    rep.transitions = evals.load(Ordering::Relaxed);
+    rep.transitions = evals.load(Ordering::Relaxed) + hist_evals.load(Ordering::Relaxed);
     rep.evaluations = rep.transitions;
     rep.traces_validated = rep.transitions;
     rep.distinct_nontrivial = rep.transitions;
@@ -437,11 +624,28 @@ pub fn run(tier: Tier) -> Report {
     rep.sample(json!({"base": "type A = array [ 2 ] of int ; proc q ( x : int , ref z : A ) { z [ 0 ] := x ; }", "damage": "Delete(`)` of q)"}));
     rep.assumptions = vec!["the undamaged parse of the same implementation is the reference (differential)".into()];
     rep.failures = fails;
-    rep
+    (rep, failing_ids)
 }
 
 pub fn replay(case: &Value) -> Vec<Failure> {
     let text = case["text"].as_str().unwrap_or("").to_string();
+    if let (Some(t0), Some(t1)) = (case["base"].as_str(), case["first_damage_text"].as_str()) {
+        // history case: base -> first damage -> text by two updates; the declarations and the
+        // table of the state reached must be those of a fresh analysis of `text`
+        let (t0, t1, t2) = (t0.to_string(), t1.to_string(), text.clone());
+        let r = guarded(move || {
+            let e1 = crate::checks::c15::single_edit_bytes(&t0, &t1);
+            let e2 = crate::checks::c15::single_edit_bytes(&t1, &t2);
+            let s = AnalyzedSource::new(t0).update(vec![spl_frontend::TextChange { range: e1.0..e1.1, text: e1.2 }]).update(vec![spl_frontend::TextChange { range: e2.0..e2.1, text: e2.2 }]);
+            let f = AnalyzedSource::new(t2);
+            (s.ast == f.ast, s.table == f.table)
+        });
+        return match r {
+            Err(p) => vec![Failure { key: "containment-after-edits:panic-in-update".into(), case: case.clone(), detail: p }],
+            Ok((true, true)) => vec![],
+            Ok((a, t)) => vec![Failure { key: "containment-after-edits:state-differs-from-fresh-analysis".into(), case: case.clone(), detail: format!("tree equal: {}, table equal: {}", a, t) }],
+        };
+    }
     match guarded(move || AnalyzedSource::new(text).errors()) {
         Err(p) => vec![Failure { key: "containment:panic".into(), case: case.clone(), detail: p }],
         Ok(e) => {
